@@ -83,6 +83,8 @@ def run(rep, tier, seed):
                    [[1, [enc_str(k), 0], [enc_str(x), 0]] for k in gen.ORDER_KEYS[:8] for x in ('x', 'y')]
             ops = rng.sample(pool, rng.randint(3, 6))
             trees.append([rng.choice([1, 2]), [[0, a] for a in ops]])
+        elif i % 8 == 6:
+            trees.append(gen.gen_tree(rng, depth=2, maxar=3, atoms=gen.with_part_atoms()))
         elif i % 4 == 1:
             trees.append(gen.gen_tree(rng, depth=rng.randint(1, 2), maxar=5, keys=gen.ORDER_KEYS))
         else:
